@@ -53,6 +53,14 @@ FAMILIES = [
     ("neg-data-bits", -1, False, [10, 16, 18, 20, 22, 24, 26], lambda m: "#d -(0b111 << (1 << %d))\n" % m),
     ("neg-slice-bits", -1, False, [10, 16, 18, 20, 22, 24, 26], lambda m: "x = (-(0b111 << (1 << %d)))[(1 << %d):3]\n#d8 x[7:0]\n" % (m, m)),
     ("neg-sized-data-bits", -1, False, [10, 16, 18, 20, 22, 24], lambda m: "#d (-(0b111 << (1 << %d)))`((1 << %d) + 8)\n" % (m, m)),
+    # cycles of macro rules: no hop forwards a parameter / only some do / through a parameterless function
+    ("macro-cycle-plain", -1, True, [1, 2, 3, 5],
+     lambda k: "#ruledef\n{\n" + "".join("    m%d => asm { m%d }\n" % (i, (i + 1) % k) for i in range(k)) + "}\nm0\n"),
+    ("macro-cycle-mixed", -1, True, [2, 3, 4],
+     lambda k: "#ruledef\n{\n" + "".join(("    m%d {x} => asm { m%d {x} }\n" if i % 2 else "    m%d {x} => asm { m%d 1 }\n") % (i, (i + 1) % k)
+                                            for i in range(k)) + "}\nm0 5\n"),
+    ("fn-asm-cycle-plain", -1, True, [1, 2],
+     lambda k: "#fn f() => asm { m }\n#ruledef\n{\n    m => f()\n}\nm\n"),
     ("rule-fn-cycle", -1, True, [1, 2], lambda k: "#fn f(x) => asm { m {x} }\n#ruledef\n{\n    m {x} => f(x)\n}\nm 1\n"),
     ("include-cycle", -1, True, [1, 2, 3, 4], None),
 ]
